@@ -328,7 +328,7 @@ fn rand_cfg(r: &mut SmallRng, opts: &RndOpts) -> Cfg {
     let mut c = Cfg::default();
     c.fanout = pick(r, &[1usize, 2, 3]);
     c.maxtx = pick(r, &[1u8, 2, 3, 10]);
-    c.maxpkt = pick(r, &[1400usize, 1400, 64, 40, 30, 24, 18]);
+    c.maxpkt = pick(r, &[1400usize, 1400, 64, 40, 30, 24, 18, 12]);
     c.notifydown = r.random_range(0..2) == 0;
     c.s2d = 3000;
     c.rda = pick(r, &[4000u64, 20_000]);
